@@ -15,12 +15,10 @@
      d_node name n               SPECIFICATION: the document declared by the descriptions registered in n (C27/Spec.v)
      names_ok n                  interface, member and property names of everything registered in n are valid D-Bus names
      xi_wf x                     no comment of x contains "--"  (XML 1.0 well-formedness of comments)
-     node_dd n                   some doc text of an interface registered in the subtree n contains "--" *)
+     rep1 / dedash_fuel / dedash the doc-line rewriting of fix e95e1976: one `replace("--", "- -")` pass / the `while
+                                 line.contains("--")` loop with fuel / the loop as the model runs it (fuel 2 + length) *)
 From ZV Require Import Base.Bytes Base.Res C26.Desc C26.Tree C26.Msg C27.Model C28.Model C26.Model.
-From ZV Require Import C28.Spec C26.Spec C27.Spec C26.Facts C26.Proofs C28.Proofs C27.Proofs C27.Reader C27.ReadBack C27.Examples.
-
-(* The well-formedness part as stated, kept visible; REFUTED (C27_wellformed_refuted). *)
-Definition C27_wellformed_full_statement : Prop := forall n name, xi_wf (node_item name n) = true.
+From ZV Require Import C28.Spec C26.Spec C27.Spec C26.Facts C26.Proofs C28.Proofs C27.Dedash C27.Proofs C27.Reader C27.ReadBack C27.Examples.
 
 (* --- the XML is read back by the library's own XML model, and what it reads is the declared document --- *)
 Theorem C27_reads_back :
@@ -84,18 +82,21 @@ Theorem C27_variant_typed_property_refuted :
 Proof. exact variant_property_refuted. Qed.
 Print Assumptions C27_variant_typed_property_refuted.
 
-(* --- well-formedness: every comment written is a well-formed XML comment unless some doc text contains "--" --- *)
-Theorem C27_wellformed_partial :
-  forall (n : node) (name : option bytes), node_dd n = false -> xi_wf (node_item name n) = true.
-Proof. exact wellformed_partial. Qed.
-Print Assumptions C27_wellformed_partial.
+(* --- well-formedness, FULL STRENGTH since fix e95e1976: whatever the doc texts, no comment written contains "--" --- *)
+Theorem C27_wellformed :
+  forall (n : node) (name : option bytes), xi_wf (node_item name n) = true.
+Proof. exact wellformed. Qed.
+Print Assumptions C27_wellformed.
 
-Theorem C27_wellformed_refuted :
-  exists n, node_dd n = true /\ xi_wf (node_item None n) = false /\
-            exists l, In l (xml_doc_lines [B " a -- b"]) /\ has_dd l = true.
-Proof. exact wellformed_refuted. Qed.
-Print Assumptions C27_wellformed_refuted.
+(* --- the rewriting loop: for EVERY byte string two `replace("--", "- -")` passes leave no "--"; hence the loop ends
+       after at most two passes, any fuel >= 2 gives the same result, and that result contains no "--" --- *)
+Theorem C27_two_passes_suffice : forall s : bytes, has_dd (rep1 (rep1 s)) = false.
+Proof. exact rep1_twice_clean. Qed.
+Print Assumptions C27_two_passes_suffice.
 
-Theorem C27_wellformed_full_statement_refuted : ~ C27_wellformed_full_statement.
-Proof. exact wellformed_full_refuted. Qed.
-Print Assumptions C27_wellformed_full_statement_refuted.
+Theorem C27_dedash_clean :
+  forall (n m : nat) (s : bytes),
+    has_dd (dedash_fuel (S (S n)) s) = false /\ dedash_fuel (S (S n)) s = dedash_fuel (S (S m)) s /\
+    (has_dd s = false -> dedash_fuel n s = s).
+Proof. exact (fun n m s => conj (dedash_fuel_enough n s) (conj (dedash_fuel_stable n m s) (dedash_fuel_clean n s))). Qed.
+Print Assumptions C27_dedash_clean.
